@@ -39,6 +39,9 @@ THEOREMS = [
     "C14.stmt_mysqlAlterDefault",
     "C14.stmt_mysqlModify",
     "C14.stmt_mysqlChange",
+    "C14.stmt_mysqlDropConstraint",
+    "C14.mssqlDropTail_literals",
+    "C14.mssqlDrop_objectId_reads_back",
     "C14.good_iff",
     "C14.good_iff_c14Ok",
     "C14.stmt_sqlite_renameColumn",
@@ -56,9 +59,14 @@ PARTIAL = {
     "NameOK (non-empty, no '%' on the %-doubling dialects, no TAB, no trailing newline, not quoted_name(quote=False)) and okText for "
     "the SQLAlchemy-rendered texts; it speaks about `compiled statement ++ command terminator`, the TAB/strip post-processing of "
     "DefaultImpl._exec is covered by the correspondence only (tab_counterexample shows it matters exactly for TAB)",
-    "C14.stmt_mssql_*": "since the fixes of F6/F7 COMMENT ON COLUMN (oracle) and both sp_rename forms are proved for all names; the "
-    "token shapes of _ExecDropConstraint/_ExecDropFKConstraint (three literals each) and of MySQL/MariaDB DROP CHECK/CONSTRAINT/"
-    "FOREIGN KEY/INDEX are modelled, specified and checked by the correspondence + spec-on-implementation only (no theorem)",
+    "C14.stmt_mysqlDropConstraint": "MySQL/MariaDB DROP CHECK / CONSTRAINT / FOREIGN KEY / INDEX / PRIMARY KEY proved for all names when the schema "
+    "argument is one identifier (quoted_name, or plain str without a dot); excluded case = open finding C14-MYSQL-DROP-DOTTED "
+    "(dotted plain-str schema quoted whole by SQLAlchemy's format_table)",
+    "C14.stmt_mssql_*": "COMMENT ON COLUMN (oracle) and both sp_rename forms are proved for all names; the token shapes of "
+    "_ExecDropConstraint/_ExecDropFKConstraint (three literals each) are modelled, specified and checked by the correspondence + "
+    "spec-on-implementation only (no stmt_ theorem); proved about them: mssqlDropTail_literals (the tail is fixed text around three "
+    "correctly escaped sqlLiteral's: schema.table, column, 'alter table <formatted table> drop constraint ') and literal_roundtrip "
+    "(each reads back as the embedded text)",
 }
 TRUSTED = [
     "SQLAlchemy's rendering of types, server defaults, comment literals and column specifications (opaque texts passed to the model; "
